@@ -385,9 +385,11 @@ def range_seq(start, stop, step):
     return VSeq(length=n, elem=lambda i: VInt(start + i * step), kind='list')
 
 
-def as_seq(ex, st, v, for_iter=False):
+def as_seq(ex, st, v, for_iter=False, allow_filtered=False):
     """-> [(state, VSeq | Raised)]: iterate/unpack view of a value"""
     if isinstance(v, VSeq):
+        if getattr(v, 'keep', None) is not None and not allow_filtered:
+            raise Unsupported('iteration/indexing of a filtered comprehension over a symbolic sequence')
         return [(st, v)]
     if isinstance(v, VOpt):
         res = []
@@ -973,7 +975,7 @@ def b_any(ex, st, args, kwargs, node):
 
 def _anyall(ex, st, v, is_all):
     res = []
-    for s, sq in as_seq(ex, st, v):
+    for s, sq in as_seq(ex, st, v, allow_filtered=True):
         if isinstance(sq, Raised):
             res.append((s, sq))
             continue
@@ -987,6 +989,8 @@ def _anyall(ex, st, v, is_all):
             i = z3.Int(uid('qi'))
             body = ex.truth(s, sq.elem(i))
             rng = z3.And(0 <= i, i < sq.length())
+            if getattr(sq, 'keep', None) is not None:
+                rng = z3.And(rng, sq.keep(i))
             if is_all:
                 res.append((s, VBool(z3.ForAll([i], z3.Implies(rng, body)))))
             else:
@@ -1376,11 +1380,10 @@ def with_enter(ex, st, cm, node):
             raise Unsupported('with on %s' % cm.cls)
         return h(ex, st, cm)
     if isinstance(cm, VOpaque):
-        ev_name = 'enter:' + ast.unparse(node)
-        st.ghost['with:' + ast.unparse(node)] = st.ghost.get('with:' + ast.unparse(node), 0) + 1
+        # opaque context manager (a lock, a session ...): ghost `held` = tuple of the managers currently entered
         from .engine import Event
-        st.trace.append(Event('__enter__', [cm], {}, None, dict(st.ghost), getattr(node, 'lineno', 0)))
-        cm._with_key = 'with:' + ast.unparse(node)
+        st.ghost['held'] = tuple(st.ghost.get('held', ())) + (cm,)
+        st.trace.append(Event('__enter__', [cm], {}, None, dict(st.ghost), getattr(node, 'lineno', 0), recv=cm))
         return [(st, VOpaque(name='entered'))]
     if isinstance(cm, VObj):
         ci = ex.class_info(cm.cls)
@@ -1395,11 +1398,14 @@ def with_exit(ex, st, cm, kind, val):
         h = STUB_CLASSES[cm.cls].get('__exit__')
         return h(ex, st, cm, kind, val)
     if isinstance(cm, VOpaque):
-        key = getattr(cm, '_with_key', None)
-        if key:
-            st.ghost[key] = st.ghost.get(key, 1) - 1
         from .engine import Event
-        st.trace.append(Event('__exit__', [cm], {}, None, dict(st.ghost), 0))
+        held = list(st.ghost.get('held', ()))
+        for k in range(len(held) - 1, -1, -1):
+            if held[k] is cm:
+                del held[k]
+                break
+        st.ghost['held'] = tuple(held)
+        st.trace.append(Event('__exit__', [cm], {}, None, dict(st.ghost), 0, recv=cm))
         return [(st, None)]
     if isinstance(cm, VObj):
         ci = ex.class_info(cm.cls)
